@@ -36,8 +36,10 @@ def _par(tasks):
             except Exception as e:      # re-raised in the caller thread
                 errs.append(e)
     ths = [threading.Thread(target=wrap, args=(k, f)) for k, f in tasks.items()]
+    import time
     for t in ths:
         t.start()
+        time.sleep(0.12)        # vlib names TLC scratch directories by millisecond timestamp
     for t in ths:
         t.join()
     if errs:
